@@ -281,12 +281,12 @@ def main():
         write_evidence(prop, tier, seed, lean, 0, 0, {}, {}, [], 1, t0, ["harness build failed"])
         sys.exit(1)
     # 3. cases (change-directed amplification: when the source differs from what the model was written against,
-    #    the quick tier runs with a 6x case budget; a changed source is information, never a violation)
+    #    the quick tier runs with a 10x case budget; a changed source is information, never a violation)
     changed = source_changed()
     gen_tier = tier
     if changed and tier == "quick":
         gen_tier = "amp"
-        notes.append("source files differ from the modelled revision: " + ", ".join(changed) + " -> quick tier amplified 6x")
+        notes.append("source files differ from the modelled revision: " + ", ".join(changed) + " -> quick tier amplified 10x")
     files, diffs, bads, totals = [], [], [], {"lines": 0, "ok": 0, "raw_identical": 0}
     corpus = os.path.join(ROOT, "corpus", f"{prop}.txt")
     for profile in ("dev", "release"):
